@@ -74,6 +74,7 @@ def rearm(vc):
     dur = vc.real("dur", 1e-3, 1e5)
     te = ts + dur
     t0 = vc.real("t0", 0, 2e6)
+    vc.assume(t0 < te + 5)  # (this call starts before the later burn queued behind the first one does)
     if vc.symbolic:
         vc.stub(FT + "@EventStack", _NS(pushEvent=lambda rec: None))
         vc.stub(FT + "@EventRecord", lambda *a: None)
@@ -81,13 +82,18 @@ def rearm(vc):
         C = vc.cls(FT + "ScheduledFiniteBurn")
         vc.stub(CE + "@isinstance", lambda o, t: (t is ft.ScheduledFiniteThrust and isinstance(o, C)) or isinstance(o, t))
         dyn = vc.new("resonaate.dynamics.special_perturbations:SpecialPerturbations", finite_thrust="STALE")
-        events = dyn._prepEvents(t0, None, [ev])
+        later = _event(vc, te + 10, te + 20)  # another burn of the same agent that has not started yet, queued behind this one
+        events = dyn._prepEvents(t0, None, [ev, later])
+        events = [e for e in events if e is not later] if (len(events) == 2 and events[1] is later) else events + ["unexpected-event-list"]
     else:
         from resonaate.dynamics.two_body import TwoBody
+        vc.install(FT + "@EventStack", _NS(pushEvent=lambda rec: None))
         ev = ft.ScheduledFiniteBurn(ts, te, partial(ft.eciBurn, acc_vector=np.zeros(3)), 1)
+        later = ft.ScheduledFiniteBurn(te + 10, te + 20, partial(ft.eciBurn, acc_vector=np.ones(3)), 1)
         dyn = TwoBody()
         dyn.finite_thrust = "STALE"
-        events = dyn._prepEvents(t0, None, [ev])
+        events = dyn._prepEvents(t0, None, [ev, later])
+        events = [e for e in events if e is not later] if (len(events) == 2 and events[1] is later) else events + ["unexpected-event-list"]
         vc.assume(abs(t0 - ts) > 1e-9 and abs(te - t0 - 1e-6) > 1e-9 and abs(te - t0) > 1e-9)
     # the event function the integrator will see during this call, at any later time tq that is not (numerically) one of the two ends
     tq = t0 + vc.real("later", 1e-3, 1e5)
@@ -304,3 +310,9 @@ def queue_events(vc):
 from pyvc.harness import share as _share  # noqa: E402
 from contracts import C13 as _C13  # noqa: E402,F401
 _share("C13", "sum[K1]", "C15")
+
+
+# a burn that started in an earlier step (or before the scenario start) is handed to its agent in EVERY step the query returns it for: the dispatch contract of C01,
+# re-checked in this property's own run
+from contracts import C01 as _C01  # noqa: E402,F401
+_share("C01", "dispatch", "C15")
